@@ -245,8 +245,11 @@ last_model_log = ""
 
 
 def build_model(cid, extract_file=None, driver=None, name=None):
-    """Extract coq/extract/Extract_<cid>.v into build/ocaml/<cid>/ and link it with
-    ocaml/<cid>_driver.ml.  Returns path of the driver executable."""
+    """Extract coq/extract/Extract_<cid>.v and link it with ocaml/<cid>_driver.ml into
+    build/ocaml/<cid>/driver.  The build happens in a private directory and the binary is
+    moved into place atomically, so a concurrently running check never sees it missing.
+    Returns the path of the driver executable, or None when the extraction file no longer compiles."""
+    global last_model_log
     name = name or cid
     od = BUILD / "ocaml" / name
     od.mkdir(parents=True, exist_ok=True)
@@ -258,31 +261,34 @@ def build_model(cid, extract_file=None, driver=None, name=None):
         newest = max([ef.stat().st_mtime, dr.stat().st_mtime] + [v.stat().st_mtime for v in vos])
         if exe.exists() and exe.stat().st_mtime >= newest:
             return str(exe)
-        for f in od.glob("*"):
-            if f.is_file():
-                f.unlink()
-        rc, out = run(["coqc", "-Q", str(COQ / "Gatery"), "Gatery", "-o", str(od / (ef.stem + ".vo")), str(ef)],
-                      cwd=od, timeout=1200)
-        global last_model_log
-        last_model_log = out
-        if rc != 0:
-            return None  # model did not compile: reported by caller as broken tie
-        mls = sorted(p.name for p in od.glob("*.ml"))
-        mlis = sorted(p.name for p in od.glob("*.mli"))
-        shutil.copy(dr, od / "driver_main.ml")
-        # order: each extracted module (mli, ml) then the driver
-        cmd = ["ocamlfind", "ocamlopt", "-O2" if False else "-w", "-a", "-package", "str,unix", "-linkpkg"]
-        for ml in mls:
-            if ml == "driver_main.ml":
-                continue
-            mli = ml + "i"
-            if mli in mlis:
-                cmd.append(mli)
-            cmd.append(ml)
-        cmd += ["driver_main.ml", "-o", "driver"]
-        rc, out = run(cmd, cwd=od, timeout=1200)
-        if rc != 0:
-            infra_error(f"ocaml build for {cid} failed:\n{out[-4000:]}")
+        wd = od / f"build.{os.getpid()}"
+        if wd.exists():
+            shutil.rmtree(wd)
+        wd.mkdir()
+        try:
+            rc, out = run(["coqc", "-Q", str(COQ / "Gatery"), "Gatery", "-o", str(wd / (ef.stem + ".vo")), str(ef)],
+                          cwd=wd, timeout=1200)
+            last_model_log = out
+            if rc != 0:
+                return None  # model did not compile: reported by caller as broken tie
+            mls = sorted(p.name for p in wd.glob("*.ml"))
+            mlis = sorted(p.name for p in wd.glob("*.mli"))
+            shutil.copy(dr, wd / "driver_main.ml")
+            cmd = ["ocamlfind", "ocamlopt", "-w", "-a", "-package", "str,unix", "-linkpkg"]
+            for ml in mls:
+                mli = ml + "i"
+                if mli in mlis:
+                    cmd.append(mli)
+                cmd.append(ml)
+            cmd += ["driver_main.ml", "-o", "driver"]
+            rc, out = run(cmd, cwd=wd, timeout=1200)
+            if rc != 0:
+                infra_error(f"ocaml build for {cid} failed:\n{out[-4000:]}")
+            os.replace(wd / "driver", exe)
+            for f in wd.glob("*.ml*"):
+                shutil.copy(f, od / f.name)   # keep the extracted sources next to the binary for inspection
+        finally:
+            shutil.rmtree(wd, ignore_errors=True)
     return str(exe)
 
 
